@@ -90,6 +90,8 @@ type Gen struct {
 	siteN    map[string]int
 	panicsNever bool
 	stdTagUsed  bool
+	bytesSeen   map[string][][2]string // object array -> ranges whose content identity was mentioned
+	arrPrev     map[string]arrDelta // object arrays produced by a range-limited write: the array before and the written range
 	nonStdTags  map[int]bool
 	entryParams map[string]*Value
 	extraAxioms []string
@@ -122,7 +124,7 @@ type Gen struct {
 func newGen(w *World, fn *ssa.Function, fc *FuncContract) *Gen {
 	g := &Gen{W: w, fn: fn, fc: fc, declared: map[string]bool{}, compSort: map[string]string{}, strs: map[string]string{}, typeIDs: map[string]int{},
 		notes: map[string]bool{}, trusted: map[string]bool{}, inlined: map[string]bool{}, rangeDone: map[string]bool{}, safetyN: map[string]int{}, siteN: map[string]int{},
-		phiConds: map[*ssa.BasicBlock][]string{}, usedSpec: map[string]bool{}, axiomsDone: map[string]bool{}, globalsSeen: map[string]bool{}, allWrites: map[string][]writeRec{}}
+		phiConds: map[*ssa.BasicBlock][]string{}, usedSpec: map[string]bool{}, axiomsDone: map[string]bool{}, globalsSeen: map[string]bool{}, allWrites: map[string][]writeRec{}, arrPrev: map[string]arrDelta{}, bytesSeen: map[string][][2]string{}}
 	if fn != nil {
 		g.short = shortFuncName(fn)
 	}
@@ -348,6 +350,9 @@ func (g *Gen) writeLeaf(st *State, lv *LValue, leaf Leaf, val string) {
 		c := g.compTerm(st, key, srt)
 		g.setComp(st, key, srt, smtSto(c, lv.Obj, smtSto(smtSel(c, lv.Obj), lv.Idx, val)))
 		g.logWrite(key, lv.Obj)
+		if len(g.bytesSeen) > 0 && leaf.Sort == sInt {
+			g.bytesWrite(smtSel(c, lv.Obj), smtSto(smtSel(c, lv.Obj), lv.Idx, val), lv.Idx, "(+ "+lv.Idx+" 1)")
+		}
 	}
 }
 
@@ -503,9 +508,10 @@ func (g *Gen) allocBound(st *State, v *Value) {
 	for i, l := range sh {
 		switch l.Kind {
 		case "ref", "obj":
-			if l.Kind == "ref" && mayBeInterior(l.T) {
+			if strings.HasPrefix(v.L[i], "?") {
 				continue
 			}
+			// (interior addresses are negative, so the bound holds for them trivially)
 			if !isLiteral(v.L[i]) {
 				bound := st.alloc
 				// a reference read from the entry heap at an object that existed at entry existed at entry itself
